@@ -18,7 +18,7 @@ ID = "C02"
 MANIFEST = {
     "category": "exploration",
     "text": "Generated-input search over strings: well-formed expressions rendered from ASTs (40%), near misses made by 1-3 character edits of them (40%) and arbitrary text incl. exotic code points (20%) go through parse_condition_expression_to_tree, the AHB parser, the resolver and is_valid_expression. A hand-written tokenizer + recursive-descent recogniser decides accept/reject for the condition parser (both directions); for the resolver, strict C09 forms must be accepted, anything returned must be fully resolved and acceptable to a lenient AHB recogniser whose condition parts pass the strict recogniser, and everything else must raise SyntaxError; no other exception type may escape anywhere. The thorough tier adds a coverage-guided atheris stage driving the same oracle.",
-    "note": "Trusted: the reference recogniser in vlib/ref.py (cross-validated against the parser on 10^5 strings with zero disagreements on the unchanged tree), Hypothesis, atheris. Strings containing non-ASCII decimal digits or the four non-ASCII letters that re.IGNORECASE folds onto ASCII (U+017F, U+212A, U+0130, U+0131) are an unspecified zone: only the no-foreign-exception clause is checked there.",
+    "note": "Trusted: the reference recogniser in vlib/ref.py (cross-validated against the parser on 10^5 strings with zero disagreements on the unchanged tree), Hypothesis, atheris. Two narrow unspecified zones where only the no-foreign-exception clause is checked: strings that are well-formed only if a repeatability may be written with non-ASCII decimal digits (the grammar's own \\d), and AHB strings containing U+017F / U+212A, which re.IGNORECASE folds onto the s / k of the modal marks. Keys and package keys must be ASCII integers.",
     "technique": "property-based testing / fuzzing of the parsers against an independent reference recogniser (differential, both directions)",
 }
 LEVEL = "exploration"
@@ -29,7 +29,7 @@ RULE = (
     "tokenise); distinct by string"
 )
 ASSUMPTIONS = [
-    "unspecified zone (only 'no foreign exception' is checked): strings with non-ASCII decimal digits or U+017F/U+212A/U+0130/U+0131",
+    "unspecified zones (only 'no foreign exception' is checked): a repeatability written with non-ASCII decimal digits; AHB strings containing U+017F/U+212A",
     "AHB strings that are not in a strict C09 form but that a lenient reading accepts may be accepted or rejected",
     "repeatabilities are syntactically \\d+..[1-9]\\d*; their numeric sanity (n<=m) is not part of parsing",
 ]
@@ -82,21 +82,22 @@ def check(case):
     text = case["s"]
     kind = case["kind"]  # "cond" | "ahb" | "other": what the generator built; only "well-formed" cases use it
     wellformed = case["class"] == "wellformed"
-    unspecified = ref.unspecified_zone(text)
     cond_ok = ref.accepts_condition(text)
-    info = {"cond_ok": cond_ok}
+    cond_zone = ref.condition_zone(text)  # well-formed only if a repeatability may use non-ASCII digits
+    unspecified = ref.unspecified_zone(text)  # U+017F / U+212A: matters for the case-insensitive modal marks only
+    info = {"cond_ok": cond_ok, "zone": cond_zone or unspecified}
 
     # (1) condition parser: tree iff the recogniser accepts, otherwise SyntaxError
     res = sut.call(parse_cond, text)
     if res.ok:
         if not isinstance(res.value, Tree):
             fail("cond-foreign", f"condition parser returned {type(res.value).__name__} for {text!r}")
-        if not cond_ok and not unspecified:
+        if not cond_ok and not cond_zone:
             fail("cond-accepts-malformed", f"condition parser accepted {text!r}, which is not a documented expression")
     else:
         if not res.is_a(SyntaxError):
             fail("cond-foreign", f"condition parser raised {res!r} for {text!r} (only SyntaxError may escape)")
-        if cond_ok and not unspecified:
+        if cond_ok:
             fail("cond-rejects-wellformed", f"condition parser rejected the well-formed {text!r}")
     info["cond"] = res.ok
 
@@ -123,8 +124,8 @@ def check(case):
         left = _unresolved_tokens(res.value)
         if left:
             fail("resolver-unresolved", f"resolver returned a tree for {text!r} that still contains {left!r}")
-        if not unspecified and not cond_ok:
-            ahb_ok = ref.accepts_ahb_lenient(text)
+        if not unspecified and not cond_ok and not cond_zone:
+            ahb_ok = ref.accepts_ahb_lenient(text, unicode_rep=True)
             if not ahb_ok:
                 fail("resolver-accepts-malformed", f"resolver accepted the malformed {text!r}")
     else:
@@ -132,7 +133,7 @@ def check(case):
             fail("resolver-foreign", f"resolver raised {res!r} for {text!r} (only SyntaxError may escape)")
         if wellformed:
             fail("resolver-rejects-wellformed", f"resolver rejected the well-formed {text!r}")
-        if cond_ok and not unspecified:
+        if cond_ok:
             fail("resolver-rejects-wellformed", f"resolver rejected the well-formed condition expression {text!r}")
     info["resolver"] = res.ok
 
@@ -153,7 +154,7 @@ def classify(case, info):
     labels.append("cond-accepted" if info["cond"] else "cond-rejected")
     labels.append("ahb-accepted" if info["ahb"] else "ahb-rejected")
     labels.append("resolver-accepted" if info["resolver"] else "resolver-rejected")
-    if ref.unspecified_zone(text):
+    if info.get("zone"):
         labels.append("unspecified-zone")
     toks = ref.tokenize(text)
     size_ok = len(toks) >= 3 if toks is not None else len(text) >= 6
